@@ -399,6 +399,16 @@ def case_lazyarray(ctx, case):
         elif k == "iter":
             f = lambda: [v for v in lz]
             want = ev
+        elif k == "oob":
+            # an index outside the list: IndexError like the eager list (never the data that follows the array in the stream)
+            f = lambda: ("value", lz[acc[1]])
+            want = ("raises", "IndexError")
+            r = outcome(f)
+            got = ("ok", ("raises", r[1].split("@")[0])) if r[0] == "exc" else r
+            if got != ("ok", want):
+                ctx.violation("lazyarray-index-out-of-range", "lazy[%d] on %d elements -> %r, the eager list raises IndexError" % (acc[1], len(ev), r[:2]), case)
+                return
+            continue
         elif k == "iterpart":
             # an iteration that is abandoned after acc[1] elements (break / any() / next() / zip with a shorter sequence)
             f = lambda: list(itertools.islice(iter(lz), acc[1]))
@@ -496,7 +506,7 @@ def gen_members(rng, maxn):
         if rng.random() < 0.22:
             ms.append([None, rng.choice(UNNAMED_OK)])
         else:
-            k = rng.choice([k for k in KINDS if k not in ("const", "padding")])
+            k = rng.choice([k for k in KINDS if k not in ("const", "padding") and not k.startswith("idx")])
             ms.append([("_m%d" if rng.random() < 0.15 else "m%d") % i, k])        # (member names may start with an underscore)
     if not any(n for n, _ in ms):
         ms[0][0] = "m0"
@@ -583,8 +593,26 @@ def run(ctx):
                     run_case(ctx, {"kind": "during", "members": ms, "data": tag(buf), "offset": off, "kw": kw, "touch": t, "cls": cls})
         if li < 2 and ctx.index < 2:
             ctx.sample({"kind": "lazystruct", "members": ms, "data": tag(data + tail), "histories": len(hs), "example_history": hs[-3]})
+    # elements that use the running index of the repeater: the lazy array numbers its elements like the eager one
+    j0 = 0
+    for elem, mkval in ((["Struct", [["i", ["name", "Index"]], ["v", B]]], lambda i: {"v": rng.randrange(256)}),
+                        (["Struct", [["d", ["Bytes", ["bin", "+", ["this", "_index"], 1]]]]], lambda i: {"d": bytes(rng.randrange(256) for _ in range(i + 1))}),
+                        (["Struct", [["i", ["Computed", ["this", "_index"]]], ["p", ["Prefixed", B, ["name", "GreedyBytes"]]]]], lambda i: {"p": bytes(rng.randrange(256) for _ in range(rng.randrange(3)))}),
+                        (["If", ["bin", ">", ["this", "_index"], 0], ["name", "Int16ub"]], lambda i: rng.randrange(65536) if i else None)):
+        KINDS["idx%d" % j0] = (elem, "ctx")
+        for count in (1, 3, 4):
+            j0 += 1
+            if not ctx.mine(j0):
+                continue
+            for rep in range(ctx.pick(2, 8)):
+                enc = mk(["Array", count, elem]).build([mkval(i) for i in range(count)])
+                for off in (0, 2):
+                    buf = bytes([0xEE]) * off + enc + b"\x99\x98"
+                    for h in ([["index", i] for i in reversed(range(count))], [["iter"]], [["index", count - 1], ["index", 0], ["slice", None, None, None]], [["iterpart", 1], ["index", -1]]):
+                        run_case(ctx, {"kind": "lazyarray", "member": [k for k in KINDS if KINDS[k][0] is elem][0], "count": count, "data": tag(buf), "offset": off, "kw": {}, "history": h, "cls": "canonical",
+                                       "form": "const" if off == 0 else "ctx"})
     # Lazy(x) fields and LazyArray of every element kind
-    kinds = [k for k in KINDS if k not in ("const", "padding")]
+    kinds = [k for k in KINDS if k not in ("const", "padding") and not k.startswith("idx")]
     j = 0
     for k in kinds:
         for rep in range(ctx.pick(3, 20)):
@@ -616,6 +644,7 @@ def run(ctx):
                             hs.append([["iterpart", 1], ["index", count - 1], ["iterpart", max(1, count - 1)], ["iter"]])
                             hs.append([["any", 0], ["iterpart", 0], ["any", count - 1], ["slice", None, None, None]])
                         hs.append([["iter"], ["len"], ["slice", None, None, None]])
+                        hs.append([["oob", count], ["oob", -count - 1], ["oob", count + 3]] + ([["index", 0]] if count else []))
                         for h in hs:
                             run_case(ctx, {"kind": "lazyarray", "member": k, "count": count, "data": tag(buf), "offset": off, "kw": kw, "history": h, "cls": cls,
                                            "form": "const" if off == 0 else "ctx"})
